@@ -80,6 +80,13 @@ def total_stream(tier, seed):
     docs.append(G.benc(G.meta_doc(piece_length=2**62, files=[(U - 1, [b"f%d" % i]) for i in range(9)], nhashes=36)))
     for d in docs:
         out.append(("load " + hx(d), "extreme-doc"))
+    for i in range(300 if tier == "quick" else 6000):
+        rng = Rng(seed, "total-long", i)
+        nm = G.long_name(rng, plain=rng.chance(1, 3))
+        if rng.chance(1, 2):
+            out.append(("load " + hx(G.benc(G.meta_doc(name=nm, piece_length=4, length=3))), "long-name"))
+        else:
+            out.append(("load " + hx(G.benc(G.meta_doc(name=b"t", piece_length=4, files=[(3, [b"d", nm])]))), "long-name"))
     n = 1500 if tier == "quick" else 40000
     for i in range(n):
         rng = Rng(seed, "total", i)
